@@ -302,9 +302,7 @@ fn explore(ctx: &Ctx, sp: &Space, rep: &mut Report, sl: &[u64]) -> serde_json::V
                     acc.inc("undo_transitions");
                 }
                 let sk = sample_key(seed, fnv(ev_str(&h2).as_bytes()));
-                if sk < (1u64 << 50) {
-                    acc.sample(sk, json!({"space": sp.name, "history": ev_str(&h2), "bytes": o.trace.last().map(|b| hx(b))}));
-                }
+                acc.maybe_sample(sk, || json!({"space": sp.name, "history": ev_str(&h2), "bytes": o.trace.last().map(|b| hx(b))}));
                 local.push(h2);
             }
             next.lock().unwrap().extend(local);
